@@ -80,6 +80,16 @@ impl<'de, R: Read<'de>> Deserializer<R> {
             .map(|code| code.and_then(|code| code.try_into()))
     }
 
+    /// Consume and discard `n` bytes without allocating
+    fn skip_bytes(&mut self, n: usize) -> Result<(), Error> {
+        for _ in 0..n {
+            self.reader
+                .next()?
+                .ok_or_else(|| Error::unexpected_eof("Expecting array body"))?;
+        }
+        Ok(())
+    }
+
     fn get_elem_code_or_read_format_code(&mut self) -> Option<Result<EncodingCodes, Error>> {
         match &self.elem_format_code {
             Some(c) => Some(Ok(c.clone())),
@@ -894,7 +904,12 @@ where
 
                 // If count is zero, jump to visitor
                 match count {
-                    0 => visitor.visit_seq(ArrayAccess::new(self, len, count)),
+                    0 => {
+                        // An empty array may still carry its element constructor, skip it
+                        // so that it is not mistaken for the value that follows the array
+                        self.skip_bytes(len.saturating_sub(OFFSET_ARRAY8 - 1))?;
+                        visitor.visit_seq(ArrayAccess::new(self, 0, count))
+                    }
                     _ => {
                         let format_code = self
                             .read_format_code()
@@ -925,7 +940,12 @@ where
 
                 // If count is zero, jump to visitor
                 match count {
-                    0 => visitor.visit_seq(ArrayAccess::new(self, len, count)),
+                    0 => {
+                        // An empty array may still carry its element constructor, skip it
+                        // so that it is not mistaken for the value that follows the array
+                        self.skip_bytes(len.saturating_sub(OFFSET_ARRAY32 - 1))?;
+                        visitor.visit_seq(ArrayAccess::new(self, 0, count))
+                    }
                     _ => {
                         let format_code = self
                             .read_format_code()
